@@ -10,8 +10,11 @@ package hap
 //@   modifies sink(w.wr)
 //@   ensures bounds: 0 <= n && n <= len(p)
 //@   ensures all: err == nil ==> n == len(p)
+//@   ensures content: err == nil ==> sink(w.wr) == cat(old(sink(w.wr)), seq(p))
+//@   ensures prefix: len(sink(w.wr)) - len(old(sink(w.wr))) <= len(p) && sink(w.wr) == cat(old(sink(w.wr)), sub(seq(p), 0, len(sink(w.wr)) - len(old(sink(w.wr)))))
 //@   loop 0
 //@     invariant nnBounds: 0 <= nn && nn <= len(p)
+//@     invariant written: sink(w.wr) == cat(old(sink(w.wr)), sub(seq(p), 0, nn))
 //@     decreases len(p) - nn
 
 // ---- devices: accessors of immutable identity data
